@@ -104,7 +104,7 @@ func (r *Report) finish() (int, error) {
 		}
 		path := r.writeReplay(replayDir, e, ob)
 		confirmed := false
-		if ob.Res.Status == "sat" && !o.noReplay {
+		if (ob.Res.Status == "sat" || fileExists(filepath.Join(verifDir, "replay", sanitize(ob.Name)+".go"))) && !o.noReplay {
 			confirmed = r.replay(path, e, ob)
 		}
 		line := fmt.Sprintf("VIOLATION property=%s replay=%s", r.Prop.ID, path)
@@ -351,4 +351,9 @@ func (r *Report) checkKnown(e *Enc, ob *Obligation, kf *knownFinding) (bool, str
 		return false, "recorded class no longer fails, but the obligation does"
 	}
 	return true, fmt.Sprintf("proved outside class {%s} by %s in %dms; class still fails (%s)", kf.Class, res.Solver, res.Ms, res2.Status)
+}
+
+func fileExists(p string) bool {
+	_, err := os.Stat(p)
+	return err == nil
 }
